@@ -687,7 +687,8 @@ def run_terms(ctx) -> RuleResult:
                 continue
             n += 1
             core = it
-            if isinstance(core, ast.Call) and isinstance(core.func, ast.Name) and core.func.id in ("enumerate", "list", "tuple") and core.args:
+            while isinstance(core, ast.Call) and isinstance(core.func, ast.Name) and core.func.id in ("enumerate", "list", "tuple", "iter") \
+                    and core.args:
                 core = core.args[0]
             ok = U(core) == "πself.keys"
             result.ob("ndpoly.coefficients iterates self.keys unfiltered", ok, module.loc(step.orig), text[:80])
